@@ -412,6 +412,20 @@ theorem C13_error_reply_ns_filter_fails :
         unmarshalErrorP (fun n => n.loc == "error" && (n.space == "" || n.space == "jabber:client" || n.space == "jabber:server"))
           (fun s => some s) w.tail) = some .missing := by decide
 
+/-- **the payload echoed in front of the error is skipped**: any sequence of complete elements
+that are not called `error` (and white space between the children, see the probe) in front of the
+rest of the stanza changes nothing in what `UnmarshalError` returns -/
+theorem C13_unmarshal_error_skips_payload (parse : String → Option String) (es : List Elem)
+    (hes : ∀ x ∈ es, x.ok) (hn : ∀ x ∈ es, x.name.loc ≠ "error") (rest : List Tok) :
+    unmarshalError parse (es.flatMap Elem.toks ++ rest) = unmarshalError parse rest := by
+  have := findErrorP_elems isErrorName es hes (fun x hx => by simpa [isErrorName] using hn x hx) rest
+  simp only [unmarshalError, unmarshalErrorP, this]
+
+example : unmarshalError (fun s => some s)
+    ((⟨⟨"urn:app", "query"⟩, [], [.chars "q"], ⟨"urn:app", "query"⟩⟩ : Elem).toks ++
+      (errorReply .iq ⟨⟨"", "iq"⟩, "1", "", "", "", "get"⟩ ⟨"", "cancel", "conflict", []⟩).tail) =
+    .ok ⟨"", "cancel", "conflict", []⟩ := by decide
+
 /-! ### probe facts: the real codecs evaluated on a finite domain (round C) -/
 
 /-- the model's `UnmarshalError` on the probe stanza: white space, one element called `n` with
